@@ -1158,16 +1158,29 @@ func (t *ft) oracle(x *ast.CallExpr, fo *types.Func, recv ast.Expr) (string, boo
 	return tuple(names), true
 }
 
-// the call an expression consists of, up to parentheses and unary operators (f(x), !f(x)):
-// the only place besides a statement of its own where a call may write memory
-func soleCall(e ast.Expr) *ast.CallExpr {
+// the call an expression consists of, up to parentheses, unary operators, conversions and
+// operations with a constant (f(x), !f(x), T(f(x)), f(x) != 0): the only place besides a
+// statement of its own where a call may write memory
+func (t *ft) soleCall(e ast.Expr) *ast.CallExpr {
 	for {
 		switch x := e.(type) {
 		case *ast.ParenExpr:
 			e = x.X
 		case *ast.UnaryExpr:
 			e = x.X
+		case *ast.BinaryExpr:
+			if _, c := t.isConst(x.Y); c {
+				e = x.X
+			} else if _, c := t.isConst(x.X); c {
+				e = x.Y
+			} else {
+				return nil
+			}
 		case *ast.CallExpr:
+			if tv, ok := t.info.Types[x.Fun]; ok && tv.IsType() && len(x.Args) == 1 {
+				e = x.Args[0]
+				continue
+			}
 			return x
 		default:
 			return nil
@@ -1307,7 +1320,7 @@ func (t *ft) writtenNames() []string {
 func (t *ft) assign(lhs []ast.Expr, rhs []ast.Expr, next cont) string {
 	return t.seq(func() string {
 		if len(rhs) == 1 {
-			t.stmtCall = soleCall(rhs[0])
+			t.stmtCall = t.soleCall(rhs[0])
 		}
 		elem := false
 		for _, l := range lhs {
@@ -1455,7 +1468,7 @@ func (t *ft) stmt(s ast.Stmt, c *ctx, next cont) string {
 				}
 			}
 			if len(x.Results) == 1 {
-				t.stmtCall = soleCall(x.Results[0])
+				t.stmtCall = t.soleCall(x.Results[0])
 			}
 			for i, r := range x.Results {
 				if len(x.Results) == len(t.fn.ResGo) {
@@ -1568,7 +1581,7 @@ func (t *ft) stmt(s ast.Stmt, c *ctx, next cont) string {
 				return t.ifJoin(x, c, next)
 			}
 			return t.seq(func() string {
-				t.stmtCall = soleCall(x.Cond)
+				t.stmtCall = t.soleCall(x.Cond)
 				cnd := t.expr(x.Cond)
 				thenS := t.block(x.Body.List, c, next)
 				var elseS string
@@ -1663,7 +1676,7 @@ func (t *ft) ifJoin(x *ast.IfStmt, c *ctx, next cont) string {
 		pat = tuple(names)
 	}
 	return t.seq(func() string {
-		t.stmtCall = soleCall(x.Cond)
+		t.stmtCall = t.soleCall(x.Cond)
 		cnd := t.expr(x.Cond)
 		n0 := t.effects
 		join := func() string { return "@JOIN@" }
